@@ -21,3 +21,25 @@ Example C19_example :
   getpath ex_tree [3; 0] = Some [(3%N, Some 2); (5%N, None)] /\
   select 5 ex_tree [(2%N, None)] = [[0]; [2]].
 Proof. vm_compute. repeat split. Qed.
+
+(* a single fault: when the check of a node depends on the node's subtree only, damaging the subtree at d can produce
+   errors only at d's ancestors (d itself included) and inside the replaced subtree *)
+Theorem C19_single_fault_local : forall (chk : tree -> bool) d t s' a,
+  (forall b, ~ err_at chk t b) -> err_at chk (replace_at t d s') a -> prefix a d \/ prefix d a.
+Proof. exact single_fault_local. Qed.
+Print Assumptions C19_single_fault_local.
+
+Theorem C19_fault_reported_at_node : forall (chk : tree -> bool) d t s' old,
+  subtree t d = Some old -> chk s' = false -> err_at chk (replace_at t d s') d.
+Proof. exact fault_reported_at_node. Qed.
+Print Assumptions C19_fault_reported_at_node.
+
+(* the locality hypothesis matters: a check that consults the whole document (IDREF against the ID table) reports an
+   error at a node that is neither an ancestor of the damaged node nor inside it - the property's fault catalogue
+   therefore damages single nodes of documents without cross references between sibling subtrees *)
+Theorem C19_context_check_not_local :
+  exists t d s' a,
+    (forall b, ~ err_at_ctx idref_chk t b) /\ err_at_ctx idref_chk (replace_at t d s') a /\
+    ~ prefix a d /\ ~ prefix d a.
+Proof. exact context_check_not_local. Qed.
+Print Assumptions C19_context_check_not_local.
